@@ -5,7 +5,7 @@
    arbitrary functions of (item, index, ctx) unless a theorem says "pure"), every dataset length, every index. *)
 From Coq Require Import ZArith List Bool String.
 Import ListNotations.
-From KD Require Import C01.Model C01.Spec C01.Check C01.Proofs C01.PlanEq C01.Bounds.
+From KD Require Import C01.Model C01.Spec C01.Check C01.Proofs C01.PlanEq C01.Bounds C01.Iter.
 
 (* ---------------------------------------------------------------------------------------------------------- *)
 (* the constructor: which loader calls are planned and which positions they fill                              *)
@@ -191,6 +191,79 @@ Proof. exact iter_len_lemma. Qed.
 Print Assumptions iter_len.
 
 (* ---------------------------------------------------------------------------------------------------------- *)
+(* 'ctx.<key>': the key is EXACTLY what follows the four characters "ctx."                                    *)
+(* ---------------------------------------------------------------------------------------------------------- *)
+(* whatever the key is made of -- leading c / t / x / dots, "ctx" itself, another "ctx." prefix, an item name, the
+   empty string: nothing of it is stripped, nothing is added *)
+Theorem ctx_item_key_is_exact_suffix : forall key, classify ("ctx." ++ key) = Ctx key.
+Proof. exact classify_ctx_suffix. Qed.
+Print Assumptions ctx_item_key_is_exact_suffix.
+
+(* and only items of that form are read from the ctx; two items read the same key only if they are the same item *)
+Theorem ctx_item_only_with_prefix : forall s key, classify s = Ctx key -> s = ("ctx." ++ key)%string.
+Proof. exact classify_ctx_only_prefixed. Qed.
+Print Assumptions ctx_item_only_with_prefix.
+
+Theorem ctx_item_keys_distinct : forall k1 k2, classify ("ctx." ++ k1) = classify ("ctx." ++ k2) -> k1 = k2.
+Proof. exact classify_ctx_injective. Qed.
+Print Assumptions ctx_item_keys_distinct.
+
+(* the composed getitem function of 'ctx.<key>' returns ctx[key] -- the entry recorded under exactly that key, KeyError
+   when there is none (whatever other keys, e.g. suffixes or prefixes of it, are recorded) -- and leaves the ctx alone *)
+Theorem ctx_item_reads_exact_key : forall value vint (st : stack value) key idx d,
+  call value vint st (classify ("ctx." ++ key)) idx (Some d) =
+  match lookup value key d with Some v => Some (v, Some d) | None => None end.
+Proof. exact call_ctx_exact. Qed.
+Print Assumptions ctx_item_reads_exact_key.
+
+(* ---------------------------------------------------------------------------------------------------------- *)
+(* iterator objects: every iter(mw) is a new iterator owning its position                                     *)
+(* ---------------------------------------------------------------------------------------------------------- *)
+(* A history of steps on ONE ModeWrapper (indexing, len, iter() creating iterator k, next(it_k), for-loop over it_k).
+   The steps concerning iterator k return, inside any history, what they return when run alone: other iterators being
+   created / advanced / exhausted, indexing and len() in between change nothing (and k's steps change nothing for them). *)
+Theorem iterators_project : forall value vint proj (st : stack value) m ops f k,
+  on_k value k ops (fst (run_ops value vint proj st m f ops)) =
+  fst (run_ops value vint proj st m f (filter (touches k) ops)).
+Proof. exact iterators_project_lemma. Qed.
+Print Assumptions iterators_project.
+
+(* Any interleaving: iterator k is created once and then advanced n times with next(), while anything else happens in
+   between.  Its j-th next() returns sample j of ONE pass over the dataset (0, 1, ..., len-1; the pass ends with the
+   first sample that raises), StopIteration (None) after the end of the pass. *)
+Theorem iterators_independent : forall value vint proj (st : stack value) m ops f k n,
+  filter (touches k) ops = OpIter k :: repeat (OpNext k) n ->
+  on_k value k ops (fst (run_ops value vint proj st m f ops)) =
+  PIter :: map (fun j => PNext (nth_error (stream value vint proj st m) j)) (seq 0 n).
+Proof. exact iterators_independent_lemma. Qed.
+Print Assumptions iterators_independent.
+
+(* one pass = what the model's __iter__ yields (self[0], ..., self[len-1]), cut after the first failing sample *)
+Theorem iterator_pass_is_iter : forall value vint proj (st : stack value) m,
+  stream value vint proj st m = cut_at_err value (iter value vint proj st m).
+Proof. exact stream_is_iter. Qed.
+Print Assumptions iterator_pass_is_iter.
+
+(* peek, then consume: after j next() calls a for-loop / list(it) over the SAME iterator gets the rest of the pass --
+   no sample twice, none missing (iter(it) is it: the position is kept) *)
+Theorem iterator_resumes_after_peek : forall value vint proj (st : stack value) m ops f k j,
+  filter (touches k) ops = OpIter k :: repeat (OpNext k) j ++ [OpRest k] ->
+  on_k value k ops (fst (run_ops value vint proj st m f ops)) =
+  PIter :: map (fun i => PNext (nth_error (stream value vint proj st m) i)) (seq 0 j)
+        ++ [PRest (skipn j (stream value vint proj st m))].
+Proof. exact peek_then_rest_lemma. Qed.
+Print Assumptions iterator_resumes_after_peek.
+
+(* The iterator states of the model are not needed to say what a history returns: every step on an iterator is
+   determined by the steps before it, by walking back to the creation of that iterator and counting the samples it
+   has handed out since (Spec.next_due / rest_due; this stateless reading is what the correspondence check evaluates
+   against the implementation's output). *)
+Theorem iterators_by_counting : forall value vint proj (st : stack value) m ops,
+  fst (run_ops value vint proj st m no_its ops) = spec_ops value vint proj st m [] ops.
+Proof. exact model_is_counting_spec_lemma. Qed.
+Print Assumptions iterators_by_counting.
+
+(* ---------------------------------------------------------------------------------------------------------- *)
 (* static helpers on a collated batch                                                                         *)
 (* ---------------------------------------------------------------------------------------------------------- *)
 Theorem has_item_is_membership : forall items it, has_item items it = true <-> In it items.
@@ -301,4 +374,23 @@ Example nv_whitespace : split_space "x  class " = ["x"; ""; "class"; ""]%string 
 Proof. vm_compute. repeat split; reflexivity. Qed.
 Example nv_split : split_space "x index class" = ["x"; "index"; "class"]%string /\
                    forallb no_space ["x"; "index"; "class"]%string = true.
+Proof. vm_compute. split; reflexivity. Qed.
+
+(* 'ctx.<key>' keys from the whole alphabet *)
+Example nv_ctx_keys :
+  map classify ["ctx.tag"; "ctx.ctx"; "ctx.ctx.ctx"; "ctx.x"; "ctx..foo"; "ctx.two_random_crop"; "ctx."; "ctx"; "ctxx"; "index"]%string
+  = [Ctx "tag"; Ctx "ctx"; Ctx "ctx.ctx"; Ctx "x"; Ctx ".foo"; Ctx "two_random_crop"; Ctx ""; Named "ctx"; Named "ctxx"; Index]%string.
+Proof. vm_compute. reflexivity. Qed.
+(* zip(mw, mw) / a second iterator while the first is half-way / peek + list(it), with indexing and len in between *)
+Definition nv_ops : list op :=
+  [OpIter 0; OpIter 1; OpNext 0; OpNext 1; OpGet (IInt 2); OpNext 0; OpLen; OpRest 1; OpNext 0; OpIter 1; OpNext 1; OpNext 0].
+Example nv_iter_premise :
+  filter (touches 0) nv_ops = OpIter 0 :: repeat (OpNext 0) 4 /\
+  filter (touches 1) (firstn 8 nv_ops) = OpIter 1 :: repeat (OpNext 1) 1 ++ [OpRest 1].
+Proof. vm_compute. split; reflexivity. Qed.
+Example nv_iter_run :
+  match init value ex_stack "index" false with
+  | inl m => map (kind_of value) (fst (run_ops value VInt cproj ex_stack m no_its nv_ops))
+  | inr _ => []
+  end = [0; 0; 0; 0; 0; 0; 0; 0; 0; 0; 0; 6]%nat /\ s_len value ex_stack = 3%Z.
 Proof. vm_compute. split; reflexivity. Qed.
